@@ -134,17 +134,31 @@ def run(ck):
                   '%s in %s only past manifest_ttl(manifest, config_).has_value()' % (lab, q.split('::')[-1]), failed.get(i))
             if ttl_idx is not None:
                 arg = f.call_args(i)[ttl_idx]
-                direct = any(f.nodes[j]['k'] == 'DeclRefExpr' and f.nodes[j].get('d') in ttl_locals for j in origin_chain(f, arg) for j in f.walk(j))
+                ttl_names = {nd_['n'] for nd_ in f.nodes if nd_['k'] == 'VarDecl' and nd_['d'] in ttl_locals}
+                def is_ttl_value(e, f=f, ttl_names=ttl_names):
+                    t = norm(canon(f, e))
+                    return (t[0] in ('op*', 'u*') and t[1][0] == 'v' and t[1][1] in ttl_names) or \
+                           (t[0] == 'mcall' and t[1] == 'value' and t[2][0] == 'v' and t[2][1] in ttl_names)
+                # the argument IS the manifest_ttl result (*ttl / ttl.value(), possibly through once-defined locals), not merely an
+                # expression that mentions it: `cond ? announced : *ttl` is not bounded by the manifest's remaining lifetime
+                def bounded(e, depth=0, f=f):
+                    if depth > 6:
+                        return False
+                    for j in origin_chain(f, e):
+                        if is_ttl_value(j):
+                            return True
+                        nd_ = f.nodes[f.strip(j)]
+                        if nd_.get('callee') == 'std::min' and any(bounded(a_, depth + 1) for a_ in f.call_args(f.strip(j))[:2]):
+                            return True            # min(x, *ttl) <= *ttl
+                        if nd_.get('callee') == NA + 'clamp_chunk_ttl' and bounded(f.call_args(f.strip(j))[0], depth + 1):
+                            return True            # *ttl is already inside [min, max] (C03.ttl/enforced), so the clamp cannot raise a value <= *ttl above it
+                    return False
+                direct = bounded(arg)
                 capped = False
                 ad = declref(f, arg)
                 if not direct and ad is not None:
                     # accepted derived form: init from (x > 0 ? x : *ttl), `if (v > *ttl) v = *ttl;`, then clamp_chunk_ttl(v, min, max)
                     defs = all_defs(f, ad)
-                    ttl_names = {nd_['n'] for nd_ in f.nodes if nd_['k'] == 'VarDecl' and nd_['d'] in ttl_locals}
-                    def is_ttl_value(e):
-                        t = norm(canon(f, e))
-                        return (t[0] in ('op*', 'u*') and t[1][0] == 'v' and t[1][1] in ttl_names) or \
-                               (t[0] == 'mcall' and t[1] == 'value' and t[2][0] == 'v' and t[2][1] in ttl_names)
                     cap = [d for d in defs if d[0] == 'assign' and is_ttl_value(d[1])]
                     clamp = [d for d in defs if d[0] == 'assign' and f.nodes[f.strip(d[1])].get('callee') == NA + 'clamp_chunk_ttl']
                     cap_ok = False
@@ -213,3 +227,25 @@ def run(ck):
     ck.ob('C03.pending', 'C03.pending/expired-dropped-first', not fails, pf.loc(),
           'a fetch stays queued (early continue) only if wall_now < manifest_expires was established in this pass: expired fetches are dropped '
           'whatever their back-off or in-flight state', fails[0][3] if fails else None)
+
+    # ---- the receiving tables stamp the record with THIS lifetime: nothing held earlier extends it ------------------------------
+    # (a shard record republished under a shorter-lived manifest must not keep the longer expiry of the record it replaces)
+    PK = ck.prog(['src/dht/KademliaTable.cpp'])
+    ps = PK.fn(KT + 'publish_shards')
+    ck.touch(ps)
+    ttl_p = ps.params[4]['d']
+    stamps = [i for i in ps.walk() if ps.nodes[i]['k'] == 'CXXOperatorCallExpr' and ps.nodes[i].get('op') == '=' and
+              (ps.nodes[ps.strip(ps.kids(i)[1])].get('m') or '').endswith('KeyShardRecord::expires_at')]
+    ok_stamp = False
+    if len(stamps) == 1:
+        srcs = value_sources(ps, ps.kids(stamps[0])[2])
+        ok_stamp = any(ps.nodes[j].get('callee') == 'std::chrono::steady_clock::now' for j in srcs) and \
+            any(ps.nodes[j].get('op') == '+' for j in srcs) and \
+            any(ps.nodes[j]['k'] == 'DeclRefExpr' and ps.nodes[j].get('d') == ttl_p for j in srcs) and \
+            not any(ps.nodes[j]['k'] == 'MemberExpr' and (ps.nodes[j].get('m') or '').endswith('::shard_table_') for j in srcs)
+        cfgp = Cfg.of(ps)
+        wit = cfgp.must_pass_from((cfgp.entry, -1), lambda e, s_=stamps[0]: e == s_ or ps.is_in(s_, e) and ps.nodes[e]['k'] == 'ExprWithCleanups')
+        ok_stamp = ok_stamp and wit is None
+    ck.ob('C03.shard', 'C03.shard/expiry-from-this-ttl', ok_stamp, ps.loc(stamps[0]) if stamps else ps.loc(),
+          'publish_shards stamps the record exactly once, on every path, with steady_clock::now() + ttl of this call '
+          '(found %d assignment(s) of expires_at)' % len(stamps))
